@@ -99,6 +99,7 @@ static uint64_t main_rng = 1;
 static inline uint64_t xs (uint64_t *s) { uint64_t x = *s; x ^= x << 13; x ^= x >> 7; x ^= x << 17; *s = x; return (x); }
 static inline uint64_t mix64 (uint64_t z) { z += 0x9E3779B97F4A7C15ull; z = (z ^ (z >> 30)) * 0xBF58476D1CE4E5B9ull; z = (z ^ (z >> 27)) * 0x94D049BB133111EBull; return (z ^ (z >> 31)); }
 int rt_self (void) { return (me); }
+void rt_adopt (int tid) { me = tid; }
 void rt_wake_delay_us (int tid, unsigned us) { T[tid].wake_delay_us = us; }
 uint64_t rt_rand (void) { return (xs (me >= 0 ? &T[me].rng : &main_rng)); }
 unsigned rt_rand_n (unsigned n) { return ((unsigned) ((rt_rand () >> 11) % n)); }
